@@ -58,7 +58,7 @@ MUTANTS = [
                                               (SER, "    nx.set_node_attributes(m, False, EXPLORED)\n    return nx.relabel_nodes(m, final_labels, copy=True)", "    return nx.relabel_nodes(m, final_labels, copy=True)")]),
     ("ser_final_labels_unsorted_neighbours", "mutant", ["C01"], [(SER, "neighbor_traversal_order.extend(sorted(neighbors_this_priority))", "neighbor_traversal_order.extend(neighbors_this_priority)")]),
     ("ser_hill_H_alphabetical", "mutant", ["C05"], [(SER, "        hydrogen_count = element_counts.pop(\"H\", None)\n        if hydrogen_count:", "        hydrogen_count = None\n        if hydrogen_count:")]),
-    ("ser_threshold_1000", "mutant", ["C01", "C03", "C05"], [(SER, "    sorted_edges = sorted([sorted(edge) for edge in m.edges()])", "    sorted_edges = sorted([sorted(edge) for edge in m.edges()], key=lambda e: (str(e[0]), str(e[1])) if m.number_of_nodes() > 999 else e)")]),
+    ("ser_threshold_1000", "mutant", ["C05"], [(SER, "    sorted_edges = sorted([sorted(edge) for edge in m.edges()])", "    sorted_edges = sorted([sorted(edge) for edge in m.edges()], key=lambda e: (str(e[0]), str(e[1])) if m.number_of_nodes() > 999 else e)")]),
     ("par_index_off_by_one", "mutant", ["C10"], [(PAR, "        if index >= len(self._atoms):", "        if index > len(self._atoms):")]),
     ("par_selfloop_allowed", "mutant", ["C10"], [(PAR, "        if index1 == index2:", "        if False and index1 == index2:")]),
     ("par_duplicate_attr_allowed", "mutant", ["C10"], [(PAR, "        if attr_key in attrs_for_node:", "        if False and attr_key in attrs_for_node:")]),
@@ -74,8 +74,8 @@ MUTANTS = [
     ("d2_revert", "mutant", ["C07"], [(V3, 'if i.startswith("CHG=")]', 'if "CHG" in i]')]),
     ("v3_no_empty_filter", "mutant", ["C07"], [(V3, "    return [[value for value in line if value != \"\"] for line in split_lines]", "    return split_lines")]),
     ("v3_star_first_ignored", "mutant", ["C07"], [(V3, "        elif atom1_is_star:\n            bond_tuples = _parse_bond_line_with_star_atom(line, atom2_index)", "        elif atom1_is_star:\n            bond_tuples = []")]),
-    ("v3_sorted_index", "mutant", ["C07", "C01"], [(V3, "    return atom_attrs, star_atoms\n\n\ndef _parse_atom_attributes", "    return dict(sorted(atom_attrs.items())), star_atoms\n\n\ndef _parse_atom_attributes")]),
-    ("v3_rad_default", "mutant", ["C07"], [(V3, "        RAD: [int(i.split(\"=\")[1]) for i in line if i.startswith(\"RAD=\")],", "        RAD: [int(i.split(\"=\")[1]) for i in line[7:] if i.startswith(\"RAD=\")][:1],")]),
+    ("v3_sorted_index", "mutant", ["C07"], [(V3, "    return atom_attrs, star_atoms\n\n\ndef _parse_atom_attributes", "    return dict(sorted(atom_attrs.items())), star_atoms\n\n\ndef _parse_atom_attributes")]),
+    ("v3_rad_default_equivalent", "canary", [], [(V3, "        RAD: [int(i.split(\"=\")[1]) for i in line if i.startswith(\"RAD=\")],", "        RAD: [int(i.split(\"=\")[1]) for i in line[7:] if i.startswith(\"RAD=\")][:1],")]),
     ("v3_take_first_dup", "canary", [], [(V3, "            atom_attrs[key] = val.pop()", "            atom_attrs[key] = val.pop(0)")]),
     ("v3_split_whitespace", "canary", [], [(V3, "    split_lines = [line.rstrip().split(\" \") for line in lines]", "    split_lines = [line.split() for line in lines]")]),
     ("v2_tuple_len_7", "mutant", ["C08"], [(V2, "    tuple_length = 8", "    tuple_length = 7")]),
@@ -87,7 +87,7 @@ MUTANTS = [
     ("v2_attr_offset_incl_bonds", "canary", [], [(V2, "attribute_block_offset = bond_block_offset + atom_lists_count", "attribute_block_offset = bond_block_offset + bond_count + atom_lists_count")]),
     ("wr_wrap_72", "mutant", ["C09"], [(WR, "        left, line = line[:71], line[71:]", "        left, line = line[:72], line[72:]")]),
     ("wr_wrap_once", "mutant", ["C09"], [(WR, "        left, line = line[:71], line[71:]\n        lines.append(f\"M  V30 {left}-\")", "        left, line = line[:71], line[71:]\n        lines.append(f\"M  V30 {left}-\")\n        lines.append(f\"M  V30 {line}\")\n        break")]),
-    ("wr_len_lt_72", "mutant", ["C09"], [(WR, "        if len(line) <= 72:", "        if len(line) < 72:")]),
+    ("wr_len_lt_72_equivalent", "canary", [], [(WR, "        if len(line) <= 72:", "        if len(line) < 72:")]),
     ("wr_5_decimals", "mutant", ["C09"], [(WR, "{x:.6f} {y:.6f} {z:.6f}", "{x:.6f} {y:.6f} {z:.5f}")]),
     ("wr_bond_index_0", "mutant", ["C09"], [(WR, "enumerate(graph.edges(data=True), start=1)", "enumerate(graph.edges(data=True), start=0)")]),
     ("wr_charge_guard", "mutant", ["C09"], [(WR, "if (chg := attrs.get(CHG)) and -15 <= chg <= 15", "if (chg := attrs.get(CHG)) and 0 < chg <= 15")]),
